@@ -9,7 +9,7 @@ import (
 
 func init() {
 	register(&propDef{ID: "C17", Run: runC17,
-		Explain: "Structural necessary conditions of 'header spelling and list layout do not change behaviour', decided on SSA/value flow of /repo: (1) comparator-discipline: every string comparison, ordering, prefix/fold call or map lookup with an operand that derives (by value flow) from Header.name occurs inside the canonical comparator isSameHeader; (2) comparator-internals: the comparator answers true exactly on EqualFold(a,b) or (compact form of b registered and EqualFold(a, compact)), and the compact table is written and read through ToLower on both sides, in both directions; (3) compact-table: every constant header name that reaches the comparator and has a compact form in the RFC 3261/IANA registry is registered by init with that letter, and no registered pair contradicts the registry; (4) layout: the Via walk leaves its loop only by exhaustion and calls the processor for every matching decodable header; PopVia/PopRoute structure is shared with C02/C13.",
+		Explain:    "Structural necessary conditions of 'header spelling and list layout do not change behaviour', decided on SSA/value flow of /repo: (1) comparator-discipline: every string comparison, ordering, prefix/fold call or map lookup with an operand that derives (by value flow) from Header.name occurs inside the canonical comparator isSameHeader; (2) comparator-internals: the comparator answers true exactly on EqualFold(a,b) or (compact form of b registered and EqualFold(a, compact)), and the compact table is written and read through ToLower on both sides, in both directions; (3) compact-table: every constant header name that reaches the comparator and has a compact form in the RFC 3261/IANA registry is registered by init with that letter, and no registered pair contradicts the registry; (4) layout: the Via walk leaves its loop only by exhaustion and calls the processor for every matching decodable header; PopVia/PopRoute structure is shared with C02/C13.",
 		NotDecided: "the metamorphic relation on full pipelines (destination and content equality between respelled variants)."})
 }
 
@@ -25,8 +25,11 @@ func runC17(c *Ctx) {
 	w := c.w
 	ruleComparatorDiscipline(c, "comparator-discipline")
 	c17Internals(c)
+	ruleHeaderFind(c, "comparator-internals")
 	c17CompactTable(c)
-	c17Layout(c)
+	// every Via entry of every header line teaches a route (rule "learning", shared with C06); it ends with the
+	// layout walk of this property (c17Layout)
+	c06Learning(c)
 	_ = w
 }
 
